@@ -1,6 +1,7 @@
 package main
 
 import (
+	"go/ast"
 	"fmt"
 	"go/constant"
 	"go/token"
@@ -1039,7 +1040,7 @@ func (c *Ctx) checkCompactHeaderConstants(rule string) {
 		{"writeCollectionBegin", []string{"<=:14", "<<:4", "|:240"}, "size <= 14 in the high nibble, 0xf0 announces a varint size"},
 		{"ReadListBegin", []string{">>:4", "&:15", "==:15"}, "size from the high nibble, 15 announces a varint size"},
 		{"WriteMessageBegin", []string{"<<:5", "&:224", "|:1", "arg:130"}, "protocol id 0x82; version 1 in the low five bits, message type in the high three"},
-		{"ReadMessageBegin", []string{"!=:130", "&:31", ">>:5", "&:7", "!=:1"}, "protocol id 0x82 required; version from the low five bits (must be 1), message type from the high three"},
+		{"ReadMessageBegin", []string{"cmp:130", "&:31", ">>:5", "&:7", "cmp:1"}, "protocol id 0x82 required; version from the low five bits (must be 1), message type from the high three"},
 	} {
 		fn := c.fn(thriftPkg, "TCompactProtocol", sp.fn)
 		if fn == nil {
@@ -1050,6 +1051,28 @@ func (c *Ctx) checkCompactHeaderConstants(rule string) {
 		key := c.fnKey(fn)
 		c.sawFunc(key)
 		have := intConstsOf(fn)
+		// helpers of the protocol the function hands part of the header to (checkVersion(b) ...)
+		{
+			seenFn := map[*ssa.Function]bool{fn: true}
+			frontier := []*ssa.Function{fn}
+			for depth := 0; depth < 2; depth++ {
+				var next []*ssa.Function
+				for _, f := range frontier {
+					instrsOf(f, func(in ssa.Instruction) {
+						if call, ok := in.(*ssa.Call); ok {
+							if g := staticCallee(call); g != nil && g.Pkg == fn.Pkg && g.Blocks != nil && !seenFn[g] && !ast.IsExported(g.Name()) {
+								seenFn[g] = true
+								next = append(next, g)
+								for k := range intConstsOf(g) {
+									have[k] = true
+								}
+							}
+						}
+					})
+				}
+				frontier = next
+			}
+		}
 		// constant arguments of calls (the protocol id byte)
 		instrsOf(fn, func(in ssa.Instruction) {
 			if call, ok := in.(*ssa.Call); ok {
@@ -1060,6 +1083,11 @@ func (c *Ctx) checkCompactHeaderConstants(rule string) {
 				}
 			}
 		})
+		for k := range have {
+			if strings.HasPrefix(k, "==:") || strings.HasPrefix(k, "!=:") {
+				have["cmp:"+k[3:]] = true // `x == K` and `x != K` test the same thing
+			}
+		}
 		var missing []string
 		for _, k := range sp.need {
 			if !have[k] {
